@@ -343,12 +343,12 @@ func runC17(c *Ctx) {
 		}
 	}
 	// ---- part 2: live settings changes -----------------------------------------------------------
-	depth := 3
+	depth := 4
 	if c.Tier == "thorough" {
-		depth = 4
+		depth = 5
 	}
 	settings := []Op{}
-	for alt := 0; alt < 6; alt++ {
+	for alt := 0; alt < 8; alt++ {
 		settings = append(settings, Op{Op: "settings", Alt: alt})
 	}
 	for _, cfg := range []Cfg{{}, {Cache: true}, {Async: 1}, {Async: 2, Cache: true}} {
@@ -376,8 +376,15 @@ func runC17(c *Ctx) {
 			c.Count("evaluations", 1)
 		}
 		e.OnNew = func(w *World, path []Op) {
-			// time passes, then Close: nothing accepted is lost, nothing deleted reappears
+			// time passes: with asynchronous writes (still or again) enabled the pending
+			// writes reach the disk without any further call, whatever the settings went through
 			vrt.Tick(5)
+			if _, timeout := w.Cfg.asyncParams(); w.Cfg.Async != 0 && timeout < 100*step {
+				if pr := w.filesVsModel("all"); len(pr) > 0 {
+					w.fail("settings|deadline-missed", "asynchronous writes are enabled, the timeout elapsed (5 clock steps without any call), but: "+strings.Join(pr, "; "))
+					return
+				}
+			}
 			w.SweepBasic()
 			if len(w.Viol) > 0 {
 				return
@@ -409,6 +416,7 @@ func runC17(c *Ctx) {
 		{{Name: "upd", Slot: 0, V: 3, K: 0}, {Name: "settings", V: 1}, {Name: "del", Slot: 1}},
 		{{Name: "settings", V: 0}, {Name: "settings", V: 4}, {Name: "ins", V: 2, K: 3}},
 		{{Name: "ins", V: 2, K: 3}, {Name: "settings", V: 3}, {Name: "settings", V: 2}},
+		{{Name: "settings", V: 6}, {Name: "settings", V: 2}, {Name: "ins", V: 2, K: 3}},
 	}
 	bound := 2
 	for _, cfg := range []Cfg{{Async: 1}, {Async: 2, Cache: true}} {
